@@ -23,6 +23,16 @@ def body(ctx):
     for st in channels_via_negotiation(ctx, prog, ex, viol):
         n += publish_once(ctx, prog, ex, f, st, 'p1', K, viol, second=True, prior=len(sent_frames(prog, st.roots['ch.info'])))
     ctx.extra['paths'] = n
+    # "reaches the wire": from the I/O thread's buffer to the transport, whole and once, under every short-write / would-block pattern,
+    # sealed or not (the write-path obligations of C01, decided here as well)
+    import c01
+    v01 = []
+    c01.write_loop(ctx, prog, v01)
+    c01.handover(ctx, prog, v01)
+    if v01:
+        ctx.replay_timeout = 180
+        ctx.report('outbound-stream', f"{len(v01)} write-path obligations violated, e.g. {str(v01[0])[:250]}; confirmed by the native write-path differential", {'solver_counterexamples': [str(v)[:300] for v in v01[:6]]},
+                   c01.NATIVE, inject_into='src/io_loop/mod.rs', profiles=('dev',), hang_is_violation=True, panic_is_violation=True)
     if viol and not ctx.violations:
         for v in viol[:5]:
             ctx.inconclusive.append(f"C02 counterexample without native replay: {v}")
